@@ -23,3 +23,679 @@ Proof.
     destruct (Qle_bool 0 q) eqn:E2; [reflexivity|].
     exfalso. assert (Qle_bool 0 q = true) by (apply Qle_bool_iff; now apply Qlt_le_weak). congruence.
 Qed.
+
+(* ================================================================== *)
+(* A. Binomial coefficients (Pascal's triangle [binom])                *)
+(* ================================================================== *)
+Lemma binom_0_r : forall n, binom n 0 = 1.
+Proof. destruct n; reflexivity. Qed.
+
+Lemma binom_pascal : forall n k, binom (S n) (S k) = binom n k + binom n (S k).
+Proof. reflexivity. Qed.
+
+Lemma binom_out : forall n k, (n < k)%nat -> binom n k = 0.
+Proof.
+  induction n as [|n IH]; destruct k as [|k]; simpl; intros H; try lia.
+  rewrite !IH by lia. reflexivity.
+Qed.
+
+Lemma binom_diag : forall n, binom n n = 1.
+Proof.
+  induction n as [|n IH]; [reflexivity|].
+  rewrite binom_pascal, IH, binom_out by lia. reflexivity.
+Qed.
+
+Lemma binom_nonneg : forall n k, 0 <= binom n k.
+Proof.
+  induction n as [|n IH]; destruct k as [|k]; simpl; try lia.
+  specialize (IH k) as H1. specialize (IH (S k)) as H2. lia.
+Qed.
+
+Lemma binom_pos : forall n k, (k <= n)%nat -> 0 < binom n k.
+Proof.
+  induction n as [|n IH]; destruct k as [|k]; simpl; intros H; try lia.
+  specialize (IH k ltac:(lia)) as H1. specialize (binom_nonneg n (S k)) as H2. lia.
+Qed.
+
+(* absorption: (k+1) C(n,k+1) = (n-k) C(n,k) — for ALL n, k (both sides 0 when k >= n) *)
+Lemma binom_absorb : forall n k,
+  binom n (S k) * Z.of_nat (S k) = binom n k * (Z.of_nat n - Z.of_nat k).
+Proof.
+  induction n as [|n IH]; intros k.
+  - destruct k; simpl; lia.
+  - destruct k as [|k].
+    + rewrite binom_pascal, !binom_0_r. specialize (IH O). rewrite binom_0_r in IH. lia.
+    + rewrite (binom_pascal n (S k)), (binom_pascal n k).
+      specialize (IH k) as H0. specialize (IH (S k)) as H1.
+      set (b0 := binom n k) in *. set (b1 := binom n (S k)) in *. set (b2 := binom n (S (S k))) in *.
+      rewrite !Nat2Z.inj_succ in *. nia.
+Qed.
+
+Lemma factZ_pos : forall n, 0 < factZ n.
+Proof. induction n as [|n IH]; [reflexivity|]. change (factZ (S n)) with (Z.of_nat (S n) * factZ n). lia. Qed.
+
+Lemma factZ_S : forall n, factZ (S n) = Z.of_nat (S n) * factZ n.
+Proof. reflexivity. Qed.
+
+Lemma binom_fact : forall n k, (k <= n)%nat -> binom n k * factZ k * factZ (n - k) = factZ n.
+Proof.
+  intros n k. induction k as [|k IH]; intros H.
+  - rewrite binom_0_r, Nat.sub_0_r. change (factZ 0) with 1. lia.
+  - specialize (IH ltac:(lia)).
+    replace (n - k)%nat with (S (n - S k)) in IH by lia.
+    rewrite factZ_S in IH. rewrite factZ_S.
+    specialize (binom_absorb n k) as A.
+    replace (Z.of_nat (S (n - S k))) with (Z.of_nat n - Z.of_nat k) in IH by lia.
+    rewrite <- IH.
+    transitivity (binom n (S k) * Z.of_nat (S k) * factZ k * factZ (n - S k)); [ring|].
+    rewrite A. ring.
+Qed.
+
+Lemma binom_sym : forall n k, (k <= n)%nat -> binom n k = binom n (n - k).
+Proof.
+  intros n k H.
+  specialize (binom_fact n k H) as F1.
+  specialize (binom_fact n (n - k) ltac:(lia)) as F2.
+  replace (n - (n - k))%nat with k in F2 by lia.
+  specialize (factZ_pos k) as P1. specialize (factZ_pos (n - k)) as P2.
+  apply (Z.mul_cancel_r _ _ (factZ k * factZ (n - k))); [nia|].
+  lia.
+Qed.
+
+(* ================================================================== *)
+(* B. The multiplicative row recurrence computes Pascal's triangle     *)
+(* ================================================================== *)
+Lemma binom_step_div : forall n j,
+  binom n j * (Z.of_nat n - Z.of_nat j) / (Z.of_nat j + 1) = binom n (S j).
+Proof.
+  intros n j. rewrite <- binom_absorb.
+  replace (Z.of_nat j + 1) with (Z.of_nat (S j)) by lia.
+  apply Z.div_mul. lia.
+Qed.
+
+Lemma binom_row_from_correct : forall n cnt j,
+  binom_row_from (Z.of_nat n) (Z.of_nat j) (binom n j) cnt = map (binom n) (seq j (S cnt)).
+Proof.
+  intros n. induction cnt as [|cnt IH]; intros j.
+  - reflexivity.
+  - change (binom_row_from (Z.of_nat n) (Z.of_nat j) (binom n j) (S cnt))
+      with (binom n j :: binom_row_from (Z.of_nat n) (Z.of_nat j + 1)
+                            (binom n j * (Z.of_nat n - Z.of_nat j) / (Z.of_nat j + 1)) cnt).
+    rewrite binom_step_div.
+    replace (Z.of_nat j + 1) with (Z.of_nat (S j)) by lia.
+    rewrite IH. reflexivity.
+Qed.
+
+Lemma binom_row_correct : forall n, binom_row n = map (binom n) (seq 0 (S n)).
+Proof.
+  intros n. unfold binom_row.
+  change 0 with (Z.of_nat 0). rewrite <- (binom_0_r n) at 1.
+  apply binom_row_from_correct.
+Qed.
+
+Lemma binomZ_correct : forall n k, (k <= n)%nat -> binomZ n k = binom n k.
+Proof.
+  intros n k H. unfold binomZ. rewrite binom_row_correct.
+  rewrite <- (binom_out n (S n)) at 1 by lia.
+  rewrite map_nth, seq_nth by lia. reflexivity.
+Qed.
+
+(* out of the row the table lookup gives the default 0, which is also C(n,k) *)
+Lemma binomZ_correct_all : forall n k, binomZ n k = binom n k.
+Proof.
+  intros n k. destruct (le_lt_dec k n) as [H|H]; [now apply binomZ_correct|].
+  unfold binomZ. rewrite binom_row_correct, nth_overflow, binom_out; auto.
+  rewrite map_length, seq_length. lia.
+Qed.
+
+(* ================================================================== *)
+(* C. The falling factorial is C(n,k) * k!  — for ALL n, k             *)
+(* ================================================================== *)
+Lemma prod_up_acc : forall cnt lo acc, prod_up lo cnt acc = acc * prod_up lo cnt 1.
+Proof.
+  induction cnt as [|cnt IH]; intros lo acc; [simpl; lia|].
+  change (prod_up lo (S cnt) acc) with (prod_up (lo + 1) cnt (acc * lo)).
+  change (prod_up lo (S cnt) 1) with (prod_up (lo + 1) cnt (1 * lo)).
+  rewrite (IH (lo + 1) (acc * lo)), (IH (lo + 1) (1 * lo)). ring.
+Qed.
+
+Lemma falling_factorial_div_all : forall n k,
+  prod_up (Z.of_nat n - (Z.of_nat k - 1)) k 1 = binom n k * factZ k.
+Proof.
+  intros n. induction k as [|k IH].
+  - rewrite binom_0_r. reflexivity.
+  - change (prod_up (Z.of_nat n - (Z.of_nat (S k) - 1)) (S k) 1)
+      with (prod_up (Z.of_nat n - (Z.of_nat (S k) - 1) + 1) k (1 * (Z.of_nat n - (Z.of_nat (S k) - 1)))).
+    rewrite prod_up_acc.
+    replace (Z.of_nat n - (Z.of_nat (S k) - 1) + 1) with (Z.of_nat n - (Z.of_nat k - 1)) by lia.
+    rewrite IH, factZ_S.
+    specialize (binom_absorb n k) as A.
+    transitivity (binom n (S k) * Z.of_nat (S k) * factZ k); [|ring].
+    rewrite A. replace (Z.of_nat n - (Z.of_nat (S k) - 1)) with (Z.of_nat n - Z.of_nat k) by lia. ring.
+Qed.
+
+Lemma falling_factorial_div : forall n k, (k <= n)%nat ->
+  prod_up (Z.of_nat n - (Z.of_nat k - 1)) k 1 = binom n k * factZ k.
+Proof. intros n k _. apply falling_factorial_div_all. Qed.
+
+Lemma falling_factorial_quot : forall n k,
+  Z.quot (prod_up (Z.of_nat n - (Z.of_nat k - 1)) k 1) (factZ k) = binom n k.
+Proof.
+  intros n k. rewrite falling_factorial_div_all. apply Z.quot_mul.
+  specialize (factZ_pos k). lia.
+Qed.
+
+(* ================================================================== *)
+(* D. No int64 overflow for n <= 20 (finite sweep), sharp at 21        *)
+(* ================================================================== *)
+Definition no_overflow_at (n k : Z) : bool :=
+  let p := prod_up (n - (k - 1)) (Z.to_nat k) 1 in
+  (prod_up64 (n - (k - 1)) (Z.to_nat k) 1 =? p) && (0 <=? p) && (p <? 2 ^ 63).
+
+Definition no_overflow_sweep : bool :=
+  forallb (fun n => forallb (fun k => no_overflow_at (Z.of_nat n) (Z.of_nat k)) (seq 1 (n - 1))) (seq 0 21).
+
+Lemma no_overflow_sweep_ok : no_overflow_sweep = true.
+Proof. vm_compute. reflexivity. Qed.
+
+Lemma choose_small_no_overflow : forall n k, 0 < k < n -> n <= 20 ->
+  prod_up64 (n - (k - 1)) (Z.to_nat k) 1 = prod_up (n - (k - 1)) (Z.to_nat k) 1 /\
+  0 <= prod_up (n - (k - 1)) (Z.to_nat k) 1 < 2 ^ 63.
+Proof.
+  intros n k Hk Hn.
+  specialize no_overflow_sweep_ok as S. unfold no_overflow_sweep in S.
+  rewrite forallb_forall in S.
+  specialize (S (Z.to_nat n)). 
+  assert (In (Z.to_nat n) (seq 0 21)) as Hin by (apply in_seq; lia).
+  specialize (S Hin). rewrite forallb_forall in S.
+  specialize (S (Z.to_nat k)).
+  assert (In (Z.to_nat k) (seq 1 (Z.to_nat n - 1))) as Hin2 by (apply in_seq; lia).
+  specialize (S Hin2). rewrite !Z2Nat.id in S by lia.
+  unfold no_overflow_at in S.
+  apply andb_prop in S. destruct S as [S S3]. apply andb_prop in S. destruct S as [S1 S2].
+  apply Z.eqb_eq in S1. apply Z.leb_le in S2. apply Z.ltb_lt in S3.
+  split; [exact S1 | split; assumption].
+Qed.
+
+(* the bound 20 is sharp: at n = 21 the int64 product wraps around *)
+Lemma choose_small_overflows_at_21 :
+  exists k, 0 < k < 21 /\ prod_up64 (21 - (k - 1)) (Z.to_nat k) 1 <> prod_up (21 - (k - 1)) (Z.to_nat k) 1.
+Proof. exists 20. split; [lia|]. vm_compute. discriminate. Qed.
+
+Lemma choose_small_exact : forall n k, 0 < k < n -> n <= 20 ->
+  choose_small n k = binom (Z.to_nat n) (Z.to_nat k).
+Proof.
+  intros n k Hk Hn. unfold choose_small.
+  destruct (choose_small_no_overflow n k Hk Hn) as [E _]. rewrite E.
+  rewrite <- (Z2Nat.id n) at 1 by lia. rewrite <- (Z2Nat.id k) at 1 by lia.
+  apply falling_factorial_quot.
+Qed.
+
+(* ================================================================== *)
+(* E. Choose / Lchoose                                                 *)
+(* ================================================================== *)
+Definition choose_value (r : choose_res) : Z := match r with CExact z | CApprox z => z end.
+
+Lemma choose_is_binomial : forall n k, 0 <= n -> 0 <= k <= n ->
+  choose_value (choose_model n k) = binom (Z.to_nat n) (Z.to_nat k).
+Proof.
+  intros n k Hn Hk. unfold choose_model.
+  destruct (k =? 0) eqn:E0; simpl.
+  { apply Z.eqb_eq in E0. subst k. simpl. now rewrite binom_0_r. }
+  destruct (k =? n) eqn:E1; simpl.
+  { apply Z.eqb_eq in E1. subst k. now rewrite binom_diag. }
+  apply Z.eqb_neq in E0, E1.
+  destruct (k <? 0) eqn:E2; [apply Z.ltb_lt in E2; lia|].
+  destruct (n <? k) eqn:E3; [apply Z.ltb_lt in E3; lia|]. simpl.
+  destruct (n <=? 20) eqn:E4; simpl.
+  - apply Z.leb_le in E4. apply choose_small_exact; lia.
+  - apply binomZ_correct. lia.
+Qed.
+
+Lemma choose_exact_small : forall n k, 0 <= n <= 20 -> exists z, choose_model n k = CExact z.
+Proof.
+  intros n k Hn. unfold choose_model.
+  destruct ((k =? 0) || (k =? n)); [eauto|].
+  destruct ((k <? 0) || (n <? k)); [eauto|].
+  destruct (n <=? 20) eqn:E; [eauto|]. apply Z.leb_gt in E. lia.
+Qed.
+
+(* exact for n <= 20, with the value: the float result is exactly C(n,k) (0 above the row) *)
+Lemma choose_exact_small_value : forall n k, 0 <= n <= 20 -> 0 <= k ->
+  choose_model n k = CExact (binom (Z.to_nat n) (Z.to_nat k)).
+Proof.
+  intros n k Hn Hk.
+  destruct (Z_le_gt_dec k n) as [Hkn|Hkn].
+  - destruct (choose_exact_small n k Hn) as [z Hz].
+    specialize (choose_is_binomial n k ltac:(lia) ltac:(lia)) as B.
+    rewrite Hz in B. simpl in B. now rewrite Hz, B.
+  - rewrite binom_out by lia. unfold choose_model.
+    destruct (k =? 0) eqn:E0; [apply Z.eqb_eq in E0; lia|].
+    destruct (k =? n) eqn:E1; [apply Z.eqb_eq in E1; lia|]. simpl.
+    assert (E : (n <? k) = true) by (apply Z.ltb_lt; lia). rewrite E, orb_true_r. reflexivity.
+Qed.
+
+Lemma choose_out_of_range : forall n k, 0 <= n -> (k < 0 \/ n < k) -> choose_model n k = CExact 0.
+Proof.
+  intros n k Hn Hk. unfold choose_model.
+  destruct (k =? 0) eqn:E0; [apply Z.eqb_eq in E0; lia|].
+  destruct (k =? n) eqn:E1; [apply Z.eqb_eq in E1; lia|]. simpl.
+  destruct Hk as [Hk|Hk].
+  - apply Z.ltb_lt in Hk. rewrite Hk. reflexivity.
+  - apply Z.ltb_lt in Hk. rewrite Hk, orb_true_r. reflexivity.
+Qed.
+
+Lemma choose_symmetric : forall n k, 0 <= n -> 0 <= k <= n ->
+  choose_value (choose_model n k) = choose_value (choose_model n (n - k)).
+Proof.
+  intros n k Hn Hk. rewrite !choose_is_binomial by lia.
+  rewrite Z2Nat.inj_sub by lia. apply binom_sym. lia.
+Qed.
+
+Lemma lchoose_is_log_choose : forall n k, 0 <= n ->
+  (0 < k < n -> lchoose_model n k = LLogOf (choose_value (choose_model n k))) /\
+  ((k = 0 \/ k = n) -> lchoose_model n k = LZero /\ choose_value (choose_model n k) = 1) /\
+  ((k < 0 \/ n < k) -> lchoose_model n k = LNaN).
+Proof.
+  intros n k Hn. repeat split.
+  - intros Hk. rewrite choose_is_binomial by lia. unfold lchoose_model.
+    destruct (k =? 0) eqn:E0; [apply Z.eqb_eq in E0; lia|].
+    destruct (k =? n) eqn:E1; [apply Z.eqb_eq in E1; lia|]. simpl.
+    destruct (k <? 0) eqn:E2; [apply Z.ltb_lt in E2; lia|].
+    destruct (n <? k) eqn:E3; [apply Z.ltb_lt in E3; lia|]. simpl.
+    f_equal. apply binomZ_correct. lia.
+  - unfold lchoose_model. destruct H as [H|H]; subst k.
+    + reflexivity.
+    + rewrite Z.eqb_refl, orb_true_r. reflexivity.
+  - unfold choose_model. destruct H as [H|H]; subst k.
+    + reflexivity.
+    + rewrite Z.eqb_refl, orb_true_r. reflexivity.
+  - intros Hk. unfold lchoose_model.
+    destruct (k =? 0) eqn:E0; [apply Z.eqb_eq in E0; lia|].
+    destruct (k =? n) eqn:E1; [apply Z.eqb_eq in E1; lia|]. simpl.
+    destruct Hk as [Hk|Hk].
+    + apply Z.ltb_lt in Hk. rewrite Hk. reflexivity.
+    + apply Z.ltb_lt in Hk. rewrite Hk, orb_true_r. reflexivity.
+Qed.
+
+(* the checker reads C(n,k) from the row table *)
+Lemma choose_row_lookup : forall n k,
+  nth (Z.to_nat k) (binom_row (Z.to_nat n)) 0 = binomZ (Z.to_nat n) (Z.to_nat k).
+Proof. reflexivity. Qed.
+
+(* ON RECORD: for NEGATIVE n the Go code (and the model) return 1 when k = n or k = 0;
+   the theorems above assume 0 <= n. *)
+Lemma choose_negative_n_example : choose_model (-1) (-1) = CExact 1.
+Proof. reflexivity. Qed.
+
+(* ================================================================== *)
+(* G. Gamma and Beta at integer / half-integer arguments               *)
+(* ================================================================== *)
+Local Open Scope Q_scope.
+
+Lemma gamma_half_fuel_indep : forall f1 f2 m, (1 <= m)%Z ->
+  (m <= 2 * Z.of_nat f1)%Z -> (m <= 2 * Z.of_nat f2)%Z ->
+  gamma_half_fuel f1 m = gamma_half_fuel f2 m.
+Proof.
+  induction f1 as [|f1 IH]; intros f2 m H1 Hf1 Hf2; [lia|].
+  destruct f2 as [|f2]; [lia|].
+  simpl. destruct (m =? 1)%Z eqn:E1; [reflexivity|].
+  destruct (m =? 2)%Z eqn:E2; [reflexivity|].
+  apply Z.eqb_neq in E1, E2.
+  rewrite (IH f2 (m - 2)%Z) by lia. reflexivity.
+Qed.
+
+Lemma gamma_half_one : gamma_half 1 = (1, true).
+Proof. reflexivity. Qed.
+
+Lemma gamma_half_two : gamma_half 2 = (1, false).
+Proof. reflexivity. Qed.
+
+Lemma gamma_half_unfold : forall m, (3 <= m)%Z ->
+  gamma_half m = (Qred (((m - 2)%Z # 2) * fst (gamma_half (m - 2))), snd (gamma_half (m - 2))).
+Proof.
+  intros m Hm. unfold gamma_half.
+  destruct (Z.to_nat m) as [|f] eqn:Ef; [lia|].
+  simpl.
+  destruct (m =? 1)%Z eqn:E1; [apply Z.eqb_eq in E1; lia|].
+  destruct (m =? 2)%Z eqn:E2; [apply Z.eqb_eq in E2; lia|].
+  rewrite (gamma_half_fuel_indep f (Z.to_nat (m - 2)) (m - 2)%Z) by lia.
+  destruct (gamma_half_fuel (Z.to_nat (m - 2)) (m - 2)%Z) as [q s]. reflexivity.
+Qed.
+
+(* Gamma(z+1) = z Gamma(z) at z = (m-2)/2 *)
+Lemma gamma_half_step : forall m, (3 <= m)%Z ->
+  fst (gamma_half m) == ((m - 2)%Z # 2) * fst (gamma_half (m - 2)) /\
+  snd (gamma_half m) = snd (gamma_half (m - 2)).
+Proof.
+  intros m Hm. rewrite (gamma_half_unfold m Hm). cbv beta iota delta [fst snd]. split; [apply Qred_correct | reflexivity].
+Qed.
+
+(* Gamma(a) = (a-1)! *)
+Lemma gamma_half_even : forall a, (1 <= a)%nat ->
+  fst (gamma_half (2 * Z.of_nat a)) == inject_Z (factZ (a - 1)) /\
+  snd (gamma_half (2 * Z.of_nat a)) = false.
+Proof.
+  intros a Ha. destruct a as [|a]; [lia|]. clear Ha.
+  induction a as [|a [IH1 IH2]].
+  - split; reflexivity.
+  - destruct (gamma_half_step (2 * Z.of_nat (S (S a)))) as [S1 S2]; [lia|].
+    replace (2 * Z.of_nat (S (S a)) - 2)%Z with (2 * Z.of_nat (S a))%Z in * by lia.
+    split; [|congruence].
+    rewrite S1, IH1.
+    replace (S (S a) - 1)%nat with (S a) by lia. replace (S a - 1)%nat with a by lia.
+    rewrite factZ_S. rewrite inject_Z_mult.
+    apply Qmult_comp; [|reflexivity].
+    unfold Qeq, inject_Z. simpl Qnum. simpl Qden. lia.
+Qed.
+
+(* Beta(a,b) = Gamma(a) Gamma(b) / Gamma(a+b) = (a-1)! (b-1)! / (a+b-1)!  at integers *)
+Lemma beta_gamma_identity_int : forall a b, (1 <= a)%nat -> (1 <= b)%nat ->
+  fst (beta_half (2 * Z.of_nat a) (2 * Z.of_nat b)) ==
+    inject_Z (factZ (a - 1) * factZ (b - 1)) / inject_Z (factZ (a + b - 1)) /\
+  snd (beta_half (2 * Z.of_nat a) (2 * Z.of_nat b)) = false.
+Proof.
+  intros a b Ha Hb.
+  destruct (gamma_half_even a Ha) as [A1 A2].
+  destruct (gamma_half_even b Hb) as [B1 B2].
+  destruct (gamma_half_even (a + b) ltac:(lia)) as [C1 C2].
+  unfold beta_half.
+  replace (2 * Z.of_nat a + 2 * Z.of_nat b)%Z with (2 * Z.of_nat (a + b))%Z by lia.
+  destruct (gamma_half (2 * Z.of_nat a)) as [qa sa].
+  destruct (gamma_half (2 * Z.of_nat b)) as [qb sb].
+  destruct (gamma_half (2 * Z.of_nat (a + b))) as [qc sc].
+  cbv beta iota zeta delta [fst snd] in *. subst sa. split; [|reflexivity].
+  rewrite Qred_correct, A1, B1, C1, inject_Z_mult. reflexivity.
+Qed.
+
+(* the general statement behind the model: beta_half IS Gamma Gamma / Gamma of the table *)
+Lemma beta_half_is_gamma_ratio : forall ma mb,
+  fst (beta_half ma mb) == fst (gamma_half ma) * fst (gamma_half mb) / fst (gamma_half (ma + mb)) /\
+  snd (beta_half ma mb) = snd (gamma_half ma) && snd (gamma_half mb).
+Proof.
+  intros ma mb. unfold beta_half.
+  destruct (gamma_half ma) as [qa sa]. destruct (gamma_half mb) as [qb sb].
+  destruct (gamma_half (ma + mb)) as [qc sc]. cbv beta iota zeta delta [fst snd]. split; [apply Qred_correct | reflexivity].
+Qed.
+
+(* ================================================================== *)
+(* H. Decision structure of BetaInc / GammaInc                         *)
+(* ================================================================== *)
+Lemma Qltb_true : forall x y, Qltb x y = true <-> x < y.
+Proof.
+  intros x y. unfold Qltb. rewrite negb_true_iff.
+  split; intro H.
+  - apply Qnot_le_lt. intro L. apply Qle_bool_iff in L. congruence.
+  - destruct (Qle_bool y x) eqn:E; [|reflexivity]. apply Qle_bool_iff in E.
+    exfalso. apply (Qlt_irrefl x). eapply Qlt_le_trans; eauto.
+Qed.
+
+Lemma Qltb_false : forall x y, Qltb x y = false <-> y <= x.
+Proof.
+  intros x y. unfold Qltb. rewrite negb_false_iff. apply Qle_bool_iff.
+Qed.
+
+Lemma Qleb_true : forall x y, Qleb x y = true <-> x <= y.
+Proof. intros. apply Qle_bool_iff. Qed.
+
+Lemma betainc_switch_in_unit : forall a b, 0 < a -> 0 < b ->
+  0 < (a + 1) / (a + b + 2) /\ (a + 1) / (a + b + 2) < 1.
+Proof.
+  intros a b Ha Hb.
+  assert (0 < a + b + 2) as Hd by lra.
+  split.
+  - apply Qlt_shift_div_l; [exact Hd|]. lra.
+  - apply Qlt_shift_div_r; [exact Hd|]. lra.
+Qed.
+
+Lemma betainc_edges : forall a b, 0 < a -> 0 < b ->
+  betainc_end_value 0 a b = Some 0 /\ betainc_end_value 1 a b = Some 1.
+Proof.
+  intros a b Ha Hb.
+  destruct (betainc_switch_in_unit a b Ha Hb) as [H0 H1].
+  unfold betainc_end_value, betainc_branch_of.
+  change (Qeqb 0 0) with true. change (Qeqb 1 0) with false. change (Qeqb 1 1) with true.
+  change (Qltb 0 0) with false. change (Qltb 1 0) with false. change (Qltb 1 1) with false.
+  simpl orb.
+  apply Qltb_true in H0. rewrite H0.
+  apply Qlt_le_weak, Qltb_false in H1. rewrite H1.
+  split; reflexivity.
+Qed.
+
+Lemma betainc_nan_outside : forall x a b, x < 0 \/ 1 < x -> betainc_branch_of x a b = BNaN.
+Proof.
+  intros x a b [H|H]; apply Qltb_true in H; unfold betainc_branch_of; rewrite H; [|rewrite orb_true_r]; reflexivity.
+Qed.
+
+(* inside [0,1] the code never returns NaN by the range test *)
+Lemma betainc_not_nan_inside : forall x a b, 0 <= x <= 1 -> betainc_branch_of x a b <> BNaN.
+Proof.
+  intros x a b [H0 H1]. unfold betainc_branch_of.
+  apply Qltb_false in H0, H1. rewrite H0, H1. simpl.
+  destruct (Qltb x ((a + 1) / (a + b + 2))); discriminate.
+Qed.
+
+Lemma gammainc_nan_domain : forall a x,
+  gammainc_branch_of (XFin a) (XFin x) = GNaN <-> (a <= 0 \/ x < 0).
+Proof.
+  intros a x. unfold gammainc_branch_of.
+  destruct (Qleb a 0) eqn:Ea; simpl.
+  - apply Qleb_true in Ea. tauto.
+  - destruct (Qltb x 0) eqn:Ex.
+    + apply Qltb_true in Ex. tauto.
+    + split.
+      * destruct (Qltb x (a + 1)); discriminate.
+      * intros [H|H].
+        -- apply Qleb_true in H. congruence.
+        -- apply Qltb_true in H. congruence.
+Qed.
+
+Lemma gammainc_nan_args : forall v,
+  gammainc_branch_of XNaN v = GNaN /\ gammainc_branch_of v XNaN = GNaN /\
+  gammainc_branch_of (XInf true) v = GNaN /\ gammainc_branch_of v (XInf true) = GNaN.
+Proof. intros [ | [|] | q]; repeat split; reflexivity. Qed.
+
+(* non-NaN cases at infinite arguments: a = +inf, x finite >= 0 -> series; x = +inf -> cont. fraction *)
+Lemma gammainc_inf_args : forall q,
+  (0 <= q -> gammainc_branch_of (XInf false) (XFin q) = GSeries) /\
+  (0 < q -> gammainc_branch_of (XFin q) (XInf false) = GContFrac) /\
+  gammainc_branch_of (XInf false) (XInf false) = GContFrac.
+Proof.
+  intros q. repeat split.
+  - intros H. simpl. apply Qltb_false in H. rewrite H. reflexivity.
+  - intros H. simpl. destruct (Qleb q 0) eqn:E; [|reflexivity].
+    apply Qleb_true in E. exfalso. apply (Qlt_irrefl 0). eapply Qlt_le_trans; eauto.
+Qed.
+Local Close Scope Q_scope.
+
+(* ================================================================== *)
+(* F. Closed form of BetaInc at integer parameters, over Q             *)
+(* ================================================================== *)
+Local Open Scope Q_scope.
+
+Lemma Qpow_compat : forall x y n, x == y -> Qpow x n == Qpow y n.
+Proof.
+  intros x y n E. induction n as [|n IH]; simpl; [reflexivity|]. rewrite IH, E. reflexivity.
+Qed.
+
+Lemma Qpow_0 : forall n, Qpow 0 (S n) == 0.
+Proof. intros n. simpl. apply Qmult_0_l. Qed.
+
+Lemma Qpow_1 : forall n, Qpow 1 n == 1.
+Proof. induction n as [|n IH]; simpl; [reflexivity|]. rewrite IH. reflexivity. Qed.
+
+Lemma ibeta_term_compat : forall n j x y, x == y -> ibeta_term n j x == ibeta_term n j y.
+Proof.
+  intros n j x y E. unfold ibeta_term.
+  rewrite (Qpow_compat x y j E), (Qpow_compat (1 - x) (1 - y) (n - j)); [reflexivity|].
+  rewrite E. reflexivity.
+Qed.
+
+Lemma ibeta_sum_from_compat : forall n cnt a x y, x == y ->
+  ibeta_sum_from n a cnt x == ibeta_sum_from n a cnt y.
+Proof.
+  intros n. induction cnt as [|cnt IH]; intros a x y E; simpl; [reflexivity|].
+  rewrite (ibeta_term_compat n a x y E), (IH (S a) x y E). reflexivity.
+Qed.
+
+Lemma ibeta_int_compat : forall a b x y, x == y -> ibeta_int a b x == ibeta_int a b y.
+Proof. intros. unfold ibeta_int. now apply ibeta_sum_from_compat. Qed.
+
+Lemma ibeta_sum_from_at_0 : forall n cnt j, (1 <= j)%nat -> ibeta_sum_from n j cnt 0 == 0.
+Proof.
+  intros n. induction cnt as [|cnt IH]; intros j Hj; simpl; [reflexivity|].
+  rewrite IH by lia. unfold ibeta_term.
+  destruct j as [|j]; [lia|]. rewrite Qpow_0. ring.
+Qed.
+
+Lemma ibeta_int_0 : forall a b, (1 <= a)%nat -> (1 <= b)%nat -> ibeta_int a b 0 == 0.
+Proof. intros a b Ha _. unfold ibeta_int. now apply ibeta_sum_from_at_0. Qed.
+
+Lemma ibeta_sum_from_at_1 : forall n cnt j, (j + S cnt = S n)%nat -> ibeta_sum_from n j (S cnt) 1 == 1.
+Proof.
+  intros n. induction cnt as [|cnt IH]; intros j Hj.
+  - assert (j = n) by lia. subst j. simpl. unfold ibeta_term.
+    rewrite binom_diag, Qpow_1, Nat.sub_diag. simpl. ring.
+  - change (ibeta_sum_from n j (S (S cnt)) 1) with (ibeta_term n j 1 + ibeta_sum_from n (S j) (S cnt) 1).
+    rewrite IH by lia. unfold ibeta_term.
+    replace (n - j)%nat with (S (n - S j)) by lia.
+    rewrite (Qpow_compat (1 - 1) 0) by reflexivity. rewrite Qpow_0. ring.
+Qed.
+
+Lemma ibeta_int_1 : forall a b, (1 <= a)%nat -> (1 <= b)%nat -> ibeta_int a b 1 == 1.
+Proof.
+  intros a b _ Hb. unfold ibeta_int. destruct b as [|b]; [lia|].
+  apply ibeta_sum_from_at_1. lia.
+Qed.
+
+(* --- the integer recurrence of the fast version --- *)
+Local Open Scope Z_scope.
+(* T_j = C(n,j) p^j r^(n-j) *)
+Definition Tz (n : nat) (p r : Z) (j : nat) : Z :=
+  binom n j * p ^ Z.of_nat j * r ^ Z.of_nat (n - j).
+Fixpoint Tz_sum (n : nat) (p r : Z) (j cnt : nat) : Z :=
+  match cnt with O => 0 | S c => Tz n p r j + Tz_sum n p r (S j) c end.
+
+(* each division of the recurrence is exact *)
+Lemma Tz_step : forall n p r j, (j < n)%nat -> 0 < r ->
+  Tz n p r j * (Z.of_nat n - Z.of_nat j) * p / ((Z.of_nat j + 1) * r) = Tz n p r (S j).
+Proof.
+  intros n p r j Hj Hr.
+  assert (E : Tz n p r j * (Z.of_nat n - Z.of_nat j) * p = Tz n p r (S j) * ((Z.of_nat j + 1) * r)).
+  { unfold Tz. specialize (binom_absorb n j) as A.
+    replace (n - j)%nat with (S (n - S j)) by lia.
+    rewrite !Nat2Z.inj_succ, !Z.pow_succ_r by lia.
+    rewrite Nat2Z.inj_succ in A.
+    transitivity (binom n j * (Z.of_nat n - Z.of_nat j) * (p ^ Z.of_nat j * p * (r * r ^ Z.of_nat (n - S j)))); [ring|].
+    rewrite <- A. ring. }
+  rewrite E. apply Z.div_mul. nia.
+Qed.
+
+Lemma ibeta_terms_fast_sum : forall n p r, 0 < r -> forall cnt j acc, (j + cnt <= S n)%nat ->
+  ibeta_terms_fast (Z.of_nat n) p r (Z.of_nat j) (Tz n p r j) cnt acc = acc + Tz_sum n p r j cnt.
+Proof.
+  intros n p r Hr. induction cnt as [|cnt IH]; intros j acc Hj.
+  - simpl. lia.
+  - change (ibeta_terms_fast (Z.of_nat n) p r (Z.of_nat j) (Tz n p r j) (S cnt) acc)
+      with (ibeta_terms_fast (Z.of_nat n) p r (Z.of_nat j + 1)
+              (Tz n p r j * (Z.of_nat n - Z.of_nat j) * p / ((Z.of_nat j + 1) * r)) cnt (acc + Tz n p r j)).
+    destruct cnt as [|cnt].
+    + simpl. lia.
+    + rewrite Tz_step by lia.
+      replace (Z.of_nat j + 1) with (Z.of_nat (S j)) by lia.
+      rewrite IH by lia.
+      change (Tz_sum n p r j (S (S cnt))) with (Tz n p r j + Tz_sum n p r (S j) (S cnt)). ring.
+Qed.
+
+Local Open Scope Q_scope.
+Lemma Qpow_frac : forall u v j, (0 < v)%Z ->
+  Qpow (inject_Z u / inject_Z v) j == inject_Z (u ^ Z.of_nat j) / inject_Z (v ^ Z.of_nat j).
+Proof.
+  intros u v j Hv.
+  assert (Hv' : ~ inject_Z v == 0).
+  { intro E. unfold Qeq, inject_Z in E. simpl in E. lia. }
+  induction j as [|j IH].
+  - simpl. reflexivity.
+  - change (Qpow (inject_Z u / inject_Z v) (S j)) with (inject_Z u / inject_Z v * Qpow (inject_Z u / inject_Z v) j).
+    rewrite IH, Nat2Z.inj_succ, !Z.pow_succ_r, !inject_Z_mult by lia.
+    assert (Hvj : ~ inject_Z (v ^ Z.of_nat j) == 0).
+    { intro E. unfold Qeq, inject_Z in E. simpl in E.
+      assert (0 < v ^ Z.of_nat j)%Z by (apply Z.pow_pos_nonneg; lia). lia. }
+    field. split; assumption.
+Qed.
+
+Lemma ibeta_term_frac : forall n j p q, (j <= n)%nat -> (0 < q)%Z ->
+  ibeta_term n j (inject_Z p / inject_Z q) ==
+  inject_Z (Tz n p (q - p) j) / inject_Z (q ^ Z.of_nat n).
+Proof.
+  intros n j p q Hj Hq. unfold ibeta_term, Tz.
+  assert (Hq' : ~ inject_Z q == 0).
+  { intro E. unfold Qeq, inject_Z in E. simpl in E. lia. }
+  assert (E1 : 1 - inject_Z p / inject_Z q == inject_Z (q - p) / inject_Z q).
+  { unfold Zminus. rewrite inject_Z_plus, inject_Z_opp. field. exact Hq'. }
+  rewrite (Qpow_compat _ _ (n - j) E1), !Qpow_frac by lia.
+  assert (En : (q ^ Z.of_nat n = q ^ Z.of_nat j * q ^ Z.of_nat (n - j))%Z).
+  { rewrite <- Z.pow_add_r by lia. f_equal. lia. }
+  rewrite En, !inject_Z_mult.
+  assert (H1 : ~ inject_Z (q ^ Z.of_nat j) == 0).
+  { intro E. unfold Qeq, inject_Z in E. simpl in E.
+    assert (0 < q ^ Z.of_nat j)%Z by (apply Z.pow_pos_nonneg; lia). lia. }
+  assert (H2 : ~ inject_Z (q ^ Z.of_nat (n - j)) == 0).
+  { intro E. unfold Qeq, inject_Z in E. simpl in E.
+    assert (0 < q ^ Z.of_nat (n - j))%Z by (apply Z.pow_pos_nonneg; lia). lia. }
+  field. split; assumption.
+Qed.
+
+Lemma ibeta_sum_from_frac : forall n p q, (0 < q)%Z -> forall cnt j, (j + cnt <= S n)%nat ->
+  ibeta_sum_from n j cnt (inject_Z p / inject_Z q) ==
+  inject_Z (Tz_sum n p (q - p) j cnt) / inject_Z (q ^ Z.of_nat n).
+Proof.
+  intros n p q Hq. 
+  assert (H1 : ~ inject_Z (q ^ Z.of_nat n) == 0).
+  { intro E. unfold Qeq, inject_Z in E. simpl in E.
+    assert (0 < q ^ Z.of_nat n)%Z by (apply Z.pow_pos_nonneg; lia). lia. }
+  induction cnt as [|cnt IH]; intros j Hj.
+  - simpl. field. exact H1.
+  - change (ibeta_sum_from n j (S cnt) (inject_Z p / inject_Z q))
+      with (ibeta_term n j (inject_Z p / inject_Z q) + ibeta_sum_from n (S j) cnt (inject_Z p / inject_Z q)).
+    change (Tz_sum n p (q - p) j (S cnt)) with (Tz n p (q - p) j + Tz_sum n p (q - p) (S j) cnt)%Z.
+    rewrite IH, ibeta_term_frac, inject_Z_plus by lia.
+    field. exact H1.
+Qed.
+
+(* the fast evaluation used by the checker equals the specification-level closed form *)
+Theorem ibeta_int_fast_correct : forall a b x, (1 <= a)%nat -> (1 <= b)%nat -> 0 <= x <= 1 ->
+  ibeta_int_fast a b x == ibeta_int a b x.
+Proof.
+  intros a b x Ha Hb [Hx0 Hx1]. unfold ibeta_int_fast.
+  destruct x as [p d]. cbv beta iota zeta delta [Qnum Qden].
+  assert (Hp : (0 <= p)%Z) by (unfold Qle in Hx0; simpl in Hx0; lia).
+  assert (Hpq : (p <= Z.pos d)%Z) by (unfold Qle in Hx1; simpl in Hx1; lia).
+  destruct (p <=? 0)%Z eqn:E0.
+  { apply Z.leb_le in E0. assert (p = 0%Z) by lia. subst p.
+    rewrite (ibeta_int_compat a b (0 # d) 0) by reflexivity.
+    symmetry. now apply ibeta_int_0. }
+  apply Z.leb_gt in E0.
+  destruct (Z.pos d - p <=? 0)%Z eqn:E1.
+  { apply Z.leb_le in E1. assert (p = Z.pos d) by lia. subst p.
+    rewrite (ibeta_int_compat a b (Z.pos d # d) 1) by (unfold Qeq; simpl; lia).
+    symmetry. now apply ibeta_int_1. }
+  apply Z.leb_gt in E1.
+  rewrite Qred_correct.
+  set (n := (a + b - 1)%nat).
+  rewrite binomZ_correct by (unfold n; lia).
+  change (binom n a * p ^ Z.of_nat a * (Z.pos d - p) ^ Z.of_nat (n - a))%Z with (Tz n p (Z.pos d - p) a).
+  rewrite ibeta_terms_fast_sum by (unfold n; lia).
+  rewrite Z.add_0_l.
+  rewrite (ibeta_int_compat a b (p # d) (inject_Z p / inject_Z (Z.pos d))) by apply Qmake_Qdiv.
+  unfold ibeta_int. fold n.
+  rewrite ibeta_sum_from_frac by (unfold n; lia).
+  rewrite Qmake_Qdiv, Z2Pos.id by (apply Z.pow_pos_nonneg; lia).
+  reflexivity.
+Qed.
+Local Close Scope Q_scope.
+
+(* conjunction referenced by Properties/C08.v *)
+Lemma ibeta_int_ends : forall a b, (1 <= a)%nat -> (1 <= b)%nat ->
+  (ibeta_int a b 0 == 0 /\ ibeta_int a b 1 == 1)%Q.
+Proof. intros a b Ha Hb. split; [now apply ibeta_int_0 | now apply ibeta_int_1]. Qed.
